@@ -33,7 +33,17 @@
 #define MAXE 16
 #define MAXT 4
 
-enum { P_PAIR0 = 0, P_PAIR1, P_PUB, P_SUB, P_REQ, P_REP, P_PUSH, P_PULL, P_SURV, P_RESP, P_BUS, P_N };
+enum { P_PAIR0 = 0, P_PAIR1, P_PUB, P_SUB, P_REQ, P_REP, P_PUSH, P_PULL, P_SURV, P_RESP, P_BUS, P_PAIR1P, P_N };
+
+// the 11 protocols vfh knows plus pair1 in polyamorous mode (cooked only)
+static vf_proto PR[P_N];
+#define T_UDP VF_T_N // one transport more than vfh knows
+#define T_N (VF_T_N + 1)
+static const char *
+tn(int t)
+{
+	return t == T_UDP ? "udp" : vf_tran_names[t];
+}
 
 // ---------------------------------------------------------------- trace
 #define TRN 128
@@ -52,7 +62,7 @@ tr(const char *fmt, ...)
 	vsnprintf(b, sizeof(trace_buf[0]), fmt, ap);
 	va_end(ap);
 	if (vf_verbose) {
-		fprintf(stderr, "  [%ld] %s\n", i, b);
+		fprintf(stderr, "  [%ld] %7.1f ms  %s\n", i, (double) (vf_now_ns() % 100000000000ULL) / 1e6, b);
 	}
 }
 
@@ -92,7 +102,10 @@ typedef struct {
 	uint32_t sig;   // crc of the body as the application last left it
 	size_t   len;
 	uint64_t bseq;  // sequence number found in the body (0: none)
+	int      rcv;   // who received it (socket/context of the model), 0: unknown
 } lent;
+static __thread int led_rcv_id; // set by the caller of led_take
+#define RCV_ID(si, ci) (1 + (si) * 16 + ((ci) + 1))
 static lent            led[LMAX];
 static int             led_hi;
 static int             led_cnt;
@@ -100,7 +113,7 @@ static uint64_t        led_seq;
 static atomic_ullong   body_seq; // unique per body written by the harness
 static pthread_mutex_t led_mx = PTHREAD_MUTEX_INITIALIZER;
 static char            prog_tag[112]; // for violation details
-static bool            mt_mode, matrix_mode;
+static bool            mt_mode, matrix_mode, stall_mode;
 
 // The same pointer may appear more than once: over inproc the peer can
 // receive (take) a message before the sender has seen its send complete.
@@ -161,6 +174,8 @@ body_write(nng_msg *m, char kind, uint64_t origin, const char *who)
 }
 
 static void topo_describe(char *buf, size_t sz); // after the model
+static bool udp_pipe_is(uint32_t id);
+static void device_forward_note(uint64_t bseq);
 
 static void
 hexline(char *out, size_t osz, const uint8_t *p, size_t from, size_t to)
@@ -426,6 +441,7 @@ led_take(nng_msg *m, int st, const char *proto, const char *api, int *slot)
 		vf_violation(key, "%s: %s completed with 0 but no message is attached", prog_tag, api);
 		return false;
 	}
+	bool over_udp = udp_pipe_is(nng_msg_get_pipe(m).id);
 	pthread_mutex_lock(&led_mx);
 	if (led_find_st(m, L_APP) >= 0) {
 		pthread_mutex_unlock(&led_mx);
@@ -466,12 +482,11 @@ led_take(nng_msg *m, int st, const char *proto, const char *api, int *slot)
 	}
 	int i = led_add(m, st);
 	if (i < 0) {
-		pthread_mutex_unlock(&led_mx);
-		vf_stat("ledger_full", 1);
-		nng_msg_free(m); // no room: still exactly one release
-		return false;
+		// (never seen; a run that cannot record what it receives proves nothing)
+		vf_harness_fail("ledger full: %d messages held by the application", led_cnt);
 	}
 	led[i].bseq = bad ? 0 : bseq;
+	led[i].rcv  = led_rcv_id;
 	// ... and the same body handed to several receivers (fan-out) must be
 	// a private copy each: we now WRITE to ours; the siblings are checked
 	// again when they are re-sent or freed.
@@ -479,6 +494,8 @@ led_take(nng_msg *m, int st, const char *proto, const char *api, int *slot)
 		for (int k = 0; k < led_hi; k++) {
 			if (k != i && led[k].st == L_APP && led[k].bseq == bseq && led[k].m != m) {
 				vf_stat("sibling_receives", 1);
+				// the same body held by two different receivers: a real fan-out
+				if (led[k].rcv != 0 && led_rcv_id != 0 && led[k].rcv != led_rcv_id) vf_stat("fanout_sibling_receives", 1);
 				break;
 			}
 		}
@@ -499,7 +516,10 @@ led_take(nng_msg *m, int st, const char *proto, const char *api, int *slot)
 	}
 	pthread_mutex_unlock(&led_mx);
 	vf_stat("msgs_from_lib", 1);
-	vf_stat(mt_mode ? "mt_msgs_from_lib" : matrix_mode ? "matrix_msgs_from_lib" : "st_msgs_from_lib", 1);
+	vf_stat(mt_mode ? "mt_msgs_from_lib" : matrix_mode ? "matrix_msgs_from_lib" : stall_mode ? "stall_msgs_from_lib" : "st_msgs_from_lib", 1);
+	if (over_udp) vf_stat("udp_msgs_from_lib", 1);
+	if (bseq != 0 && !bad) device_forward_note(bseq);
+	if (!strcmp(proto, "pair1poly")) vf_stat("pair1poly_msgs_from_lib", 1);
 	if (bad) {
 		// Topology for the record
 		char topo[400] = "";
@@ -625,6 +645,8 @@ static aiom  A[MAXA];
 
 static pthread_mutex_t mx = PTHREAD_MUTEX_INITIALIZER; // model lock; never held across nng calls
 static bool            race_prog;                    // minority: close races with pending finite ops
+static const char *volatile cur_op[MAXT];           // what each driver thread is doing (diagnostics)
+static volatile uint64_t    cur_op_since[MAXT];
 static atomic_long     ops_done;
 static atomic_uint     trans_used; // bit per transport the program connected over
 static long            ops_target;
@@ -636,6 +658,26 @@ typedef struct {
 
 #define LOCK() pthread_mutex_lock(&mx)
 #define UNLOCK() pthread_mutex_unlock(&mx)
+
+// cooked ends of a device chain A - [raw | raw device] - B that the program
+// started from (-1: none).  A body written for one end that arrives at the
+// other end although the two are not connected directly went through the
+// device.
+static int dev_end[2] = { -1, -1 };
+
+static void
+device_forward_note(uint64_t bseq)
+{
+	int si = (led_rcv_id - 1) / 16;
+	if (led_rcv_id == 0 || dev_end[0] < 0 || bseq <= brec_base || bseq - brec_base >= BR_N) return;
+	int other = si == dev_end[0] ? dev_end[1] : si == dev_end[1] ? dev_end[0] : -1;
+	if (other < 0 || !S[other].open || strcmp(brec[bseq - brec_base].who, S[other].name) != 0) return;
+	for (int j = 0; j < MAXS; j++) {
+		if (S[si].peer[j] && S[j].open && !strcmp(S[j].name, S[other].name)) return; // may have come directly
+	}
+	vf_stat("device_forwards", 1);
+	vf_class("device-forward/%s->%s", S[other].name, S[si].name);
+}
 
 static void
 topo_describe(char *buf, size_t sz)
@@ -669,13 +711,13 @@ has_ctx(const sockm *s)
 static bool
 compatible(int a, int b)
 {
-	return vf_protos[a].peer == vf_protos[b].self;
+	return PR[a].peer == PR[b].self;
 }
 static int
 peer_pk(int pk)
 {
 	for (int i = 0; i < P_N; i++) {
-		if (vf_protos[i].self == vf_protos[pk].peer) {
+		if (PR[i].self == PR[pk].peer) {
 			return i;
 		}
 	}
@@ -795,6 +837,34 @@ some_pipe(int si, vf_rng *r)
 	return id;
 }
 
+// pipes that run over udp (the only transport that hands a buffer of its own
+// up to the application), so that receives over it can be counted
+#define UDPP_N 64
+static atomic_uint udp_pipes[UDPP_N];
+static atomic_uint udp_pipes_n;
+
+static void
+udp_pipe_note(nng_pipe p)
+{
+	const nng_url *u  = NULL;
+	nng_listener   l  = nng_pipe_listener(p);
+	nng_dialer     d  = nng_pipe_dialer(p);
+	int            rv = nng_listener_id(l) > 0 ? nng_listener_get_url(l, &u) : nng_dialer_id(d) > 0 ? nng_dialer_get_url(d, &u) : -1;
+	if (rv == 0 && u != NULL && !strcmp(nng_url_scheme(u), "udp")) {
+		atomic_store(&udp_pipes[atomic_fetch_add(&udp_pipes_n, 1) % UDPP_N], (unsigned) nng_pipe_id(p));
+		vf_stat("udp_pipes", 1);
+	}
+}
+
+static bool
+udp_pipe_is(uint32_t id)
+{
+	for (int i = 0; id != 0 && i < UDPP_N; i++) {
+		if (atomic_load(&udp_pipes[i]) == id) return true;
+	}
+	return false;
+}
+
 static void
 pipe_cb(nng_pipe p, nng_pipe_ev ev, void *arg)
 {
@@ -810,6 +880,7 @@ pipe_cb(nng_pipe p, nng_pipe_ev ev, void *arg)
 		break;
 	case NNG_PIPE_EV_ADD_POST:
 		note_pipe(si, (uint32_t) nng_pipe_id(p));
+		udp_pipe_note(p);
 		pthread_mutex_lock(&s->pmx);
 		for (int i = 0; i < 16; i++) {
 			if (s->alive[i] == 0) {
@@ -854,11 +925,18 @@ static nng_msg *
 build_msg(vf_rng *r, int pk, bool raw, uint32_t route, size_t sz, int *slot)
 {
 	char who[20];
-	snprintf(who, sizeof(who), "%s%s", raw ? "x" : "", vf_protos[pk].name);
+	snprintf(who, sizeof(who), "%s%s", raw ? "x" : "", PR[pk].name);
 	(void) vf_rand(r);
 	nng_msg *m = led_alloc(sz, who, slot);
 	if (m == NULL) {
 		return NULL;
+	}
+	if (pk == P_PAIR1P) {
+		// polyamorous mode: the pipe recorded in the message selects the peer
+		uint32_t x = vf_below(r, 6);
+		nng_pipe pp = { x < 3 ? route : x < 4 ? (uint32_t) vf_below(r, 100000) + 1 : 0 };
+		nng_msg_set_pipe(m, pp);
+		vf_class("pair1poly-route/%s", x < 3 ? (route ? "known-pipe" : "none") : x < 4 ? "stale-id" : "none");
 	}
 	if (raw && !vf_chance(r, 1, 10)) {
 		uint32_t id = 0x80000000u | (uint32_t) vf_rand(r);
@@ -905,7 +983,7 @@ static const optdef opts[] = {
 	{ NNG_OPT_SURVEYOR_SURVEYTIME, "SURVEYTIME", 'm', PB(P_SURV), true, false, 5, { 1000, 5, -1, 1, 50 } },
 	{ NNG_OPT_SUB_PREFNEW, "PREFNEW", 'b', PB(P_SUB), true, false, 2, { 0, 1 } },
 	{ NNG_OPT_RECVMAXSZ, "RECVMAXSZ", 'z', ALLP, false, true, 5, { 16, 0, 1 << 20, 1, 100 } },
-	{ NNG_OPT_MAXTTL, "MAXTTL", 'i', PB(P_REQ) | PB(P_REP) | PB(P_SURV) | PB(P_RESP) | PB(P_PAIR1), false, false, 7, { 1, 15, 2, 8, 255, 0, 256 } },
+	{ NNG_OPT_MAXTTL, "MAXTTL", 'i', PB(P_REQ) | PB(P_REP) | PB(P_SURV) | PB(P_RESP) | PB(P_PAIR1) | PB(P_PAIR1P), false, false, 7, { 1, 15, 2, 8, 255, 0, 256 } },
 	{ NNG_OPT_RECONNMINT, "RECONNMINT", 'm', ALLP, false, true, 4, { 1, 10, 100, 0 } },
 	{ NNG_OPT_RECONNMAXT, "RECONNMAXT", 'm', ALLP, false, true, 5, { 0, 1, 10, 100, 1000 } },
 	{ NNG_OPT_WS_SENDMAXFRAME, "WS_TXFRAME", 'z', 0, false, true, 6, { 1, 16, 125, 126, 65536, 0 } },
@@ -919,6 +997,12 @@ static const optdef opts[] = {
 	{ NNG_OPT_WS_SEND_TEXT, "WS_SEND_TEXT", 'b', 0, false, true, 2, { 0, 1 } },
 	{ NNG_OPT_WS_RECV_TEXT, "WS_RECV_TEXT", 'b', 0, false, true, 2, { 1, 0 } },
 	{ NNG_OPT_IPC_PERMISSIONS, "IPC_PERMISSIONS", 'i', 0, false, true, 3, { 0600, 0666, 0 } },
+	// udp endpoints (settable before the start only), pair1 mode flag (read-only)
+	{ NNG_OPT_UDP_COPY_MAX, "UDP_COPY_MAX", 'z', 0, false, true, 4, { 0, 64, 65000, 1024 } },
+	{ NNG_OPT_UDP_CONN_RETRY, "UDP_CONN_RETRY", 'm', 0, false, true, 4, { 20, 50, 100, 0 } },
+	{ NNG_OPT_UDP_CONN_EXPIRE, "UDP_CONN_EXPIRE", 'm', 0, false, true, 4, { 1000, 2000, 3000, 0 } },
+	{ NNG_OPT_UDP_MAX_PEERS, "UDP_MAX_PEERS", 'z', 0, false, true, 4, { 0, 1, 2, 1024 } },
+	{ NNG_OPT_PAIR1_POLY, "PAIR1_POLY", 'b', PB(P_PAIR1) | PB(P_PAIR1P), false, false, 2, { 0, 1 } },
 };
 static char        str1k[1025];
 static const char *strvals[4] = { "", "x", "vf.sp.nanomsg.org", str1k };
@@ -1068,6 +1152,7 @@ aio_cb(void *arg)
 			// (read it before the ledger makes the message available
 			// to the driver threads, which may send it away at once)
 			uint32_t pid = m != NULL ? nng_msg_get_pipe(m).id : 0;
+			led_rcv_id   = RCV_ID(a->ts, a->tc);
 			if (led_take(m, L_APP, a->pname, a->on_ctx ? "nng_ctx_recv" : "nng_socket_recv", NULL)) {
 				note_pipe(a->ts, pid);
 			}
@@ -1105,6 +1190,7 @@ echo_cb(aiom *a)
 	if (a->kind == K_RECV) {
 		if (rv == 0) {
 			nng_msg *m = nng_aio_get_msg(a->a);
+			led_rcv_id = RCV_ID(a->ts, a->tc);
 			if (led_take(m, L_BUSY, a->pname, "echo recv", &a->mslot)) {
 				a->msg    = m;
 				a->efails = 0;
@@ -1479,6 +1565,7 @@ op_recv(thr *t)
 		tr("t%d recvmsg%s %s%s [%s]", t->id, fl ? "(NB)" : "", tg.pname, tg.ci >= 0 ? ".ctx" : "", tg.phase);
 		rv = tg.ci >= 0 ? nng_ctx_recvmsg(tg.hc, &m, fl) : nng_recvmsg(tg.hs, &m, fl);
 		uint32_t pid = (rv == 0 && m != NULL) ? nng_msg_get_pipe(m).id : 0;
+		led_rcv_id   = RCV_ID(tg.si, tg.ci);
 		if (rv == 0 && led_take(m, L_APP, tg.pname, "nng_recvmsg", NULL)) {
 			note_pipe(tg.si, pid);
 		}
@@ -1634,7 +1721,16 @@ drain_before_close(int si, int ci)
 		}
 		UNLOCK();
 		if (u == 0) break;
-		if (n > 20000) vf_harness_fail("users never drained");
+		if (n > 20000) {
+			// (say what the other driver threads are inside, and for how long)
+			char     w[200] = "";
+			uint64_t now    = vf_now_ns();
+			for (int k = 0; k < MAXT; k++) {
+				const char *o = cur_op[k];
+				if (o != NULL) snprintf(w + strlen(w), sizeof(w) - strlen(w), " t%d:%s(%.1fs)", k, o, (double) (now - cur_op_since[k]) / 1e9);
+			}
+			vf_harness_fail("users never drained; driver threads are in%s; last trace: %s", w, trace_buf[(atomic_load(&trace_n) + TRN - 1) % TRN]);
+		}
 		vf_usleep(500);
 	}
 	for (int i = 0; i < MAXA; i++) {
@@ -1652,6 +1748,27 @@ drain_before_close(int si, int ci)
 			unclaim(i);
 		}
 	}
+}
+
+// evidence: a close that happens while another thread is inside a call on the
+// object (race programs only), or while an aio operation is pending on it
+static void
+close_users_sample(int si, int ci)
+{
+	LOCK();
+	int  u = ci >= 0 ? C[ci].users : S[si].users;
+	bool pend = false;
+	if (ci < 0) {
+		for (int i = 0; i < MAXC; i++) {
+			if (C[i].open && C[i].s == si) u += C[i].users;
+		}
+	}
+	for (int i = 0; i < MAXA; i++) {
+		if ((A[i].st == A_PEND || A[i].st == A_ECHO) && A[i].ts == si && (ci < 0 || A[i].tc == ci) && !atomic_load(&A[i].done)) pend = true;
+	}
+	UNLOCK();
+	if (u > 0) vf_stat("closes_with_users", 1);
+	if (pend) vf_stat("closes_with_aio_pending", 1);
 }
 
 static void
@@ -1681,6 +1798,7 @@ op_ctx_close(thr *t, int want)
 	drain_before_close(si, ci);
 	tr("t%d ctx_close slot %d (%s) [%s]", t->id, ci, S[si].name, ph);
 	vf_class("ctx_close/%s/%s", S[si].name, ph);
+	close_users_sample(si, ci);
 	nng_ctx_close(h);
 	LOCK();
 	C[ci].open    = false;
@@ -1718,6 +1836,7 @@ op_sock_close(thr *t, int want)
 	drain_before_close(si, -1);
 	tr("t%d socket_close %s [%s]", t->id, S[si].name, ph);
 	vf_class("socket_close/%s/%s", S[si].name, ph);
+	close_users_sample(si, -1);
 	nng_socket_close(h);
 	LOCK();
 	S[si].open    = false;
@@ -1788,6 +1907,29 @@ wait_pipes(int a, int b, int la, int lb, int ms)
 	}
 }
 
+static void
+mk_url(int t, char *buf, size_t sz)
+{
+	if (t == T_UDP) {
+		snprintf(buf, sz, "udp://127.0.0.1:0");
+	} else {
+		vf_url(t, buf, sz);
+	}
+}
+
+static int
+mk_dial_url(nng_listener l, int t, const char *listen_url, char *buf, size_t sz)
+{
+	if (t == T_UDP) {
+		int port = 0;
+		int rv   = nng_listener_get_int(l, NNG_OPT_BOUND_PORT, &port);
+		if (rv != 0) return rv;
+		snprintf(buf, sz, "udp://127.0.0.1:%d", port);
+		return 0;
+	}
+	return vf_dial_url(l, t, listen_url, buf, sz);
+}
+
 // connect socket a (listens) and b (dials) over a transport
 static void
 op_connect(thr *t, int wa, int wb, int wtran)
@@ -1830,16 +1972,17 @@ op_connect(thr *t, int wa, int wb, int wtran)
 	int        la = atomic_load(&S[a].live_pipes), lb = atomic_load(&S[b].live_pipes);
 	UNLOCK();
 
-	static const int tw[] = { VF_T_INPROC, VF_T_INPROC, VF_T_INPROC, VF_T_IPC, VF_T_IPC, VF_T_TCP, VF_T_TCP, VF_T_WS, VF_T_WS, VF_T_SOCKFD };
-	int              tran = wtran >= 0 ? wtran : tw[vf_below(&t->r, 10)];
+	static const int tw[] = { VF_T_INPROC, VF_T_INPROC, VF_T_INPROC, VF_T_IPC, VF_T_IPC, VF_T_TCP, VF_T_TCP, VF_T_WS, VF_T_WS, VF_T_SOCKFD, T_UDP, T_UDP };
+	int              tran = wtran >= 0 ? wtran : tw[vf_below(&t->r, 12)];
+	bool             abstract = false;
 	int              rva = -1, rvb = -1;
 	nng_listener     l  = { 0 }, l2 = { 0 };
 	nng_dialer       d  = { 0 };
 	char             url[128], durl[128] = "";
 	bool             b_is_listener = false;
 	atomic_fetch_or(&trans_used, 1u << tran);
-	tr("t%d connect %s <- %s over %s", t->id, S[a].name, S[b].name, vf_tran_names[tran]);
-	vf_class("connect/%s/%s<-%s%s", vf_tran_names[tran], S[a].name, S[b].name, compat ? "" : "/mismatch");
+	tr("t%d connect %s <- %s over %s", t->id, S[a].name, S[b].name, tn(tran));
+	vf_class("connect/%s/%s<-%s%s", tn(tran), S[a].name, S[b].name, compat ? "" : "/mismatch");
 	if (tran == VF_T_SOCKFD) {
 		int fds[2];
 		b_is_listener = true;
@@ -1854,12 +1997,13 @@ op_connect(thr *t, int wa, int wb, int wtran)
 			if (fds[1] >= 0) close(fds[1]);
 		}
 	} else {
-		vf_url(tran, url, sizeof(url));
+		mk_url(tran, url, sizeof(url));
 		if (tran == VF_T_IPC && vf_chance(&t->r, 1, 3)) {
 			// linux abstract socket namespace
 			static atomic_int an;
 			snprintf(url, sizeof(url), "abstract://vf-c03-%d-%d", (int) getpid(), atomic_fetch_add(&an, 1));
 			vf_stat("abstract_ipc_connects", 1);
+			abstract = true;
 		}
 		if (vf_chance(&t->r, 1, 2)) {
 			rva = nng_listen(ha, url, &l, 0);
@@ -1869,8 +2013,13 @@ op_connect(thr *t, int wa, int wb, int wtran)
 				nng_listener_close(l);
 			}
 		}
-		if (rva == 0 && vf_dial_url(l, tran, url, durl, sizeof(durl)) == 0) {
+		if (rva == 0 && mk_dial_url(l, tran, url, durl, sizeof(durl)) == 0) {
 			int fl = vf_chance(&t->r, 1, 4) ? NNG_FLAG_NONBLOCK : 0;
+			// (a synchronous udp dial to a listener of an incompatible
+			// protocol used to never return - udp_recv_cack dropped the pipe
+			// and left the dial waiting; repaired in the repository, so the
+			// synchronous form is driven; C03_UDP_ASYNC_MISMATCH=1 avoids it)
+			if (tran == T_UDP && !compat && getenv("C03_UDP_ASYNC_MISMATCH") != NULL) fl = NNG_FLAG_NONBLOCK;
 			if (vf_chance(&t->r, 1, 2)) {
 				rvb = nng_dial(hb, durl, &d, fl);
 			} else if ((rvb = nng_dialer_create(&d, hb, durl)) == 0) {
@@ -1885,6 +2034,12 @@ op_connect(thr *t, int wa, int wb, int wtran)
 	if (rva == 0 && rvb == 0 && compat) {
 		wait_pipes(a, b, la, lb, 60);
 		vf_stat("connects_ok", 1);
+		// (a connection that really exists: both sides got a pipe)
+		if (atomic_load(&S[a].live_pipes) > la && atomic_load(&S[b].live_pipes) > lb) {
+			char sk[48];
+			snprintf(sk, sizeof(sk), "connected_%s", abstract ? "abstract" : tn(tran));
+			vf_stat(sk, 1);
+		}
 	}
 	LOCK();
 	E[ea].open = E[eb].open = false;
@@ -1949,9 +2104,10 @@ op_redial(thr *t)
 	UNLOCK();
 	nng_dialer d;
 	int        fl = vf_chance(&t->r, 1, 2) ? NNG_FLAG_NONBLOCK : 0;
+	if (ltran == T_UDP) fl = NNG_FLAG_NONBLOCK; // (see op_connect; a closed listener would cost the 5 s connection expiry)
 	int        rv = nng_dial(hb, durl, &d, fl);
 	tr("t%d redial %s -> %s flags=%d -> %d", t->id, S[b].name, durl, fl, rv);
-	vf_class("redial/%s/%s", vf_tran_names[ltran], rv == 0 ? "ok" : nng_strerror(rv));
+	vf_class("redial/%s/%s", tn(ltran), rv == 0 ? "ok" : nng_strerror(rv));
 	if (rv == 0 && compat) vf_msleep(2);
 	LOCK();
 	E[eb].open = false;
@@ -1990,7 +2146,7 @@ op_ep_close(thr *t)
 	S[e.s].users++;
 	UNLOCK();
 	tr("t%d %s_close on %s", t->id, e.dialer ? "dialer" : "listener", S[e.s].name);
-	vf_class("ep_close/%s/%s/%s", e.dialer ? "dialer" : "listener", vf_tran_names[e.tran], S[e.s].name);
+	vf_class("ep_close/%s/%s/%s", e.dialer ? "dialer" : "listener", tn(e.tran), S[e.s].name);
 	if (e.dialer) nng_dialer_close(e.d); else nng_listener_close(e.l);
 	LOCK();
 	S[e.s].users--;
@@ -2278,6 +2434,21 @@ op_failed_stream(thr *t)
 }
 
 // ---------------------------------------------------------------- aio actions
+// the operation was in the library's hands (nng_aio_busy) just before the
+// action and completed with the action's own error: the action ended a
+// PENDING operation (the protocol's / transport's cancel function ran)
+static void
+note_pending_hit(bool was_busy, bool is_send, const char *pn, int result, int want)
+{
+	if (was_busy && result == want) {
+		char sk[64];
+		snprintf(sk, sizeof(sk), "pending_%s_ended/%s", is_send ? "send" : "recv", pn);
+		vf_stat(sk, 1);
+		vf_stat(is_send ? "pending_sends_ended" : "pending_recvs_ended", 1);
+		vf_class("pending-ended/%s/%s/%s", is_send ? "send" : "recv", pn, nng_strerror(want));
+	}
+}
+
 static void
 finish_echo_or_pend(thr *t, int i, int how)
 {
@@ -2294,6 +2465,12 @@ finish_echo_or_pend(thr *t, int i, int how)
 	tr("t%d aio%d %s (%s %s on %s)", t->id, i, hn, echo ? "echo" : "oneshot", a->kind == K_SEND ? "send" : "recv", a->pname);
 	vf_class("aio_%s/%s/%s%s/%s", hn, echo ? "echo" : a->kind == K_SEND ? "send" : "recv", a->pname, a->on_ctx ? ".ctx" : "", ph);
 	vf_stat("aio_actions", 1);
+	// evidence that cancel/abort/stop met an operation that was really pending
+	// (the library has it: nng_aio_busy) and ended it (the action's own result)
+	bool was_busy = !echo && nng_aio_busy(a->a) && !atomic_load(&a->done);
+	char pn[24];
+	snprintf(pn, sizeof(pn), "%s%s", a->pname, a->on_ctx ? ".ctx" : "");
+	bool is_send = a->kind == K_SEND;
 	switch (how) {
 	case 0:
 	case 1:
@@ -2307,9 +2484,10 @@ finish_echo_or_pend(thr *t, int i, int how)
 			nng_aio_wait(a->a);
 		} else {
 			if (how == 0) nng_aio_cancel(a->a); else nng_aio_abort(a->a, e);
-			if (vf_chance(&t->r, 1, 2)) {
+			if (vf_chance(&t->r, 1, 2) || (stall_mode && vf_chance(&t->r, 2, 3))) {
 				// a pending operation completes after cancel; a finished one already has
 				nng_aio_wait(a->a);
+				note_pending_hit(was_busy, is_send, pn, a->result, how == 0 ? NNG_ECANCELED : (int) e);
 			} else {
 				LOCK();
 				a->finite = true; // will complete by itself: may be waited for later
@@ -2326,6 +2504,7 @@ finish_echo_or_pend(thr *t, int i, int how)
 		// (NNG_ESTOPPED) submission: the aio is not submitted again
 		if (echo) a->stop_used = true;
 		UNLOCK();
+		note_pending_hit(was_busy, is_send, pn, a->result, NNG_ESTOPPED);
 		break;
 	default:
 		nng_aio_wait(a->a);
@@ -2388,7 +2567,7 @@ op_echo_start(thr *t)
 		UNLOCK();
 		return;
 	}
-	bool ok = can_send(tg.pk) && can_recv(tg.pk) && (tg.pk == P_REP || tg.pk == P_RESP || tg.pk == P_PAIR0 || tg.pk == P_PAIR1 || tg.raw);
+	bool ok = can_send(tg.pk) && can_recv(tg.pk) && (tg.pk == P_REP || tg.pk == P_RESP || tg.pk == P_PAIR0 || tg.pk == P_PAIR1 || tg.pk == P_PAIR1P || tg.raw);
 	if (!ok || (ai = claim_idle_aio(t, false)) < 0) {
 		put_target(&tg);
 		UNLOCK();
@@ -2487,6 +2666,33 @@ op_pipe_close(thr *t)
 			(void) nng_pipe_socket(p);
 			(void) nng_pipe_dialer(p);
 			(void) nng_pipe_listener(p);
+			// every typed getter; the ws handshake header iteration (one
+			// cursor per pipe: single-threaded programs only) and request URI
+			bool        bv;
+			int         iv;
+			const char *sv = NULL;
+			char       *dup = NULL, cp[48];
+			size_t      ln;
+			(void) nng_pipe_get_scheme(p, &sv);
+			(void) nng_pipe_get_bool(p, NNG_OPT_TCP_NODELAY, &bv);
+			(void) nng_pipe_get_bool(p, NNG_OPT_TCP_KEEPALIVE, &bv);
+			(void) nng_pipe_get_int(p, NNG_OPT_MAXTTL, &iv);
+			(void) nng_pipe_get_string(p, NNG_OPT_WS_REQUEST_URI, &sv);
+			(void) nng_pipe_get_strcpy(p, NNG_OPT_WS_REQUEST_URI, cp, sizeof(cp));
+			(void) nng_pipe_get_strlen(p, NNG_OPT_WS_REQUEST_URI, &ln);
+			if (nng_pipe_get_strdup(p, NNG_OPT_WS_REQUEST_URI, &dup) == 0 && dup != NULL) {
+				nng_strfree(dup);
+				vf_stat("pipe_ws_strings", 1);
+			}
+			if (!mt_mode && nng_pipe_get_bool(p, NNG_OPT_WS_HEADER_RESET, &bv) == 0) {
+				for (int k = 0; k < 12 && nng_pipe_get_bool(p, NNG_OPT_WS_HEADER_NEXT, &bv) == 0 && bv; k++) {
+					(void) nng_pipe_get_string(p, NNG_OPT_WS_HEADER_KEY, &sv);
+					(void) nng_pipe_get_strcpy(p, NNG_OPT_WS_HEADER_VALUE, cp, sizeof(cp));
+					dup = NULL;
+					if (nng_pipe_get_strdup(p, NNG_OPT_WS_HEADER_VALUE, &dup) == 0 && dup != NULL) nng_strfree(dup);
+					vf_stat("pipe_ws_headers_walked", 1);
+				}
+			}
 			vf_stat("pipe_getters", 1);
 		}
 		int rv = (int) nng_pipe_close(p);
@@ -2589,9 +2795,10 @@ open_socket(thr *t, int pk, bool raw)
 	}
 	S[si].closing = true; // reserve
 	UNLOCK();
+	if (PR[pk].open_raw == NULL) raw = false; // pair1poly has no raw mode
 	nng_socket h;
-	int        rv = raw ? vf_protos[pk].open_raw(&h) : vf_protos[pk].open(&h);
-	if (rv != 0) vf_harness_fail("open %s: %s", vf_protos[pk].name, nng_strerror(rv));
+	int        rv = raw ? PR[pk].open_raw(&h) : PR[pk].open(&h);
+	if (rv != 0) vf_harness_fail("open %s: %s", PR[pk].name, nng_strerror(rv));
 	sockm *s = &S[si];
 	LOCK();
 	s->h           = h;
@@ -2608,7 +2815,7 @@ open_socket(thr *t, int pk, bool raw)
 	pthread_mutex_unlock(&s->pmx);
 	atomic_store(&s->live_pipes, 0);
 	atomic_store(&s->reject_next, 0);
-	snprintf(s->name, sizeof(s->name), "%s%s", raw ? "x" : "", vf_protos[pk].name);
+	snprintf(s->name, sizeof(s->name), "%s%s", raw ? "x" : "", PR[pk].name);
 	UNLOCK();
 	tr("t%d open %s (slot %d)", t->id, s->name, si);
 	vf_class("open/%s", s->name);
@@ -2656,10 +2863,12 @@ op_open(thr *t)
 }
 
 // ---------------------------------------------------------------- device
+static void device_start_pair(thr *t, int a, int b, bool valid, bool reflect);
+
 static void
 op_device_start(thr *t)
 {
-	int  a = -1, b = -1, ai;
+	int  a = -1, b = -1;
 	bool valid = true, reflect = false;
 	LOCK();
 	for (int tries = 0; tries < 60 && a < 0; tries++) {
@@ -2679,12 +2888,24 @@ op_device_start(thr *t)
 		b     = y;
 		valid = v;
 	}
-	if (a < 0 || (ai = claim_idle_aio(t, false)) < 0) {
+	// reserve: nobody may start using the sockets from now on
+	if (a >= 0) S[a].closing = S[b].closing = true;
+	UNLOCK();
+	if (a >= 0) device_start_pair(t, a, b, valid, reflect);
+}
+
+// start a device on sockets a and b (a == b: reflector) of the model, which
+// the caller has reserved (closing = true) while nobody used them
+static void
+device_start_pair(thr *t, int a, int b, bool valid, bool reflect)
+{
+	int ai;
+	LOCK();
+	if ((ai = claim_idle_aio(t, false)) < 0) {
+		S[a].closing = S[b].closing = false;
 		UNLOCK();
 		return;
 	}
-	// reserve: nobody may start using the sockets from now on
-	S[a].closing = S[b].closing = true;
 	nng_socket ha = S[a].h, hb = S[b].h;
 	UNLOCK();
 	reap_aio(ai);
@@ -2803,6 +3024,8 @@ model_reset(void)
 	atomic_store(&ops_done, 0);
 	atomic_store(&trace_n, 0);
 	atomic_store(&trans_used, 0);
+	dev_end[0] = dev_end[1] = -1;
+	for (int i = 0; i < UDPP_N; i++) atomic_store(&udp_pipes[i], 0);
 	brec_base = atomic_load(&body_seq);
 }
 
@@ -2826,27 +3049,29 @@ random_op(thr *t)
 		return;
 	}
 	uint32_t x = vf_below(&t->r, 100);
-	if (x < 24) op_send(t);
-	else if (x < 48) op_recv(t);
-	else if (x < 58) op_setopt(t);
-	else if (x < 63) op_connect(t, -1, -1, -1);
-	else if (x < 66) op_open(t);
-	else if (x < 70) op_ctx_open(t);
-	else if (x < 72) op_ctx_close(t, -1);
-	else if (x < 78) op_aio_action(t);
-	else if (x < 81) op_echo_start(t);
-	else if (x < 84) op_pipe_close(t);
-	else if (x < 86) op_sock_close(t, -1);
-	else if (x < 88) op_ep_close(t);
-	else if (x < 90) op_redial(t);
-	else if (x < 92) op_device_start(t);
-	else if (x < 93) op_device_stop(t);
-	else if (x < 95) op_stats(t);
-	else if (x < 97) op_subscribe(t);
-	else if (x < 98) op_free_msgs(t);
-	else if (x < 99) op_aio_alloc_free(t);
-	else if (vf_chance(&t->r, 2, 3)) op_failed_endpoint(t);
-	else op_failed_stream(t);
+#define OP(name, call) do { cur_op[t->id] = name; cur_op_since[t->id] = vf_now_ns(); call; cur_op[t->id] = NULL; } while (0)
+	if (x < 24) OP("send", op_send(t));
+	else if (x < 48) OP("recv", op_recv(t));
+	else if (x < 58) OP("setopt", op_setopt(t));
+	else if (x < 63) OP("connect", op_connect(t, -1, -1, -1));
+	else if (x < 66) OP("open", op_open(t));
+	else if (x < 70) OP("ctx_open", op_ctx_open(t));
+	else if (x < 72) OP("ctx_close", op_ctx_close(t, -1));
+	else if (x < 78) OP("aio_action", op_aio_action(t));
+	else if (x < 81) OP("echo_start", op_echo_start(t));
+	else if (x < 84) OP("pipe_close", op_pipe_close(t));
+	else if (x < 86) OP("sock_close", op_sock_close(t, -1));
+	else if (x < 88) OP("ep_close", op_ep_close(t));
+	else if (x < 90) OP("redial", op_redial(t));
+	else if (x < 92) OP("device_start", op_device_start(t));
+	else if (x < 93) OP("device_stop", op_device_stop(t));
+	else if (x < 95) OP("stats", op_stats(t));
+	else if (x < 97) OP("subscribe", op_subscribe(t));
+	else if (x < 98) OP("free_msgs", op_free_msgs(t));
+	else if (x < 99) OP("aio_alloc_free", op_aio_alloc_free(t));
+	else if (vf_chance(&t->r, 2, 3)) OP("failed_endpoint", op_failed_endpoint(t));
+	else OP("failed_stream", op_failed_stream(t));
+#undef OP
 }
 
 static void *
@@ -2932,9 +3157,9 @@ finish_program(void)
 	// leak keys name the transports the program used (C03/tran=ipc+ws/leak/size=N)
 	char     prefix[64] = "C03/tran=";
 	unsigned tu         = atomic_load(&trans_used);
-	for (int t = 0; t < VF_T_N; t++) {
+	for (int t = 0; t < T_N; t++) {
 		if (tu & (1u << t)) {
-			snprintf(prefix + strlen(prefix), sizeof(prefix) - strlen(prefix), "%s%s", prefix[9] ? "+" : "", vf_tran_names[t]);
+			snprintf(prefix + strlen(prefix), sizeof(prefix) - strlen(prefix), "%s%s", prefix[9] ? "+" : "", tn(t));
 		}
 	}
 	if (!prefix[9]) strcat(prefix, "none");
@@ -2945,7 +3170,7 @@ finish_program(void)
 	vf_stat("allocations_tracked", vf_alloc_total() - last_total);
 	last_total = vf_alloc_total();
 	vf_stat("programs", 1);
-	vf_stat(mt_mode ? "mt_programs" : matrix_mode ? "matrix_programs" : "st_programs", 1);
+	vf_stat(mt_mode ? "mt_programs" : matrix_mode ? "matrix_programs" : stall_mode ? "stall_programs" : "st_programs", 1);
 	vf_stat("fini_balance_checks", 1);
 }
 
@@ -2958,7 +3183,8 @@ run_random_program(long idx)
 	vf_rng_seed(&r, vf_seed, (uint64_t) idx);
 	model_reset();
 	int nthr   = mt_mode ? (int) vf_range(&r, 2, 4) : 1;
-	race_prog  = vf_chance(&r, 1, 16) && getenv("C03_HUB") == NULL;
+	race_prog  = vf_chance(&r, 1, mt_mode ? 8 : 16) && getenv("C03_HUB") == NULL;
+	if (race_prog) vf_stat(mt_mode ? "mt_race_programs" : "st_race_programs", 1);
 	ops_target = (long) vf_range(&r, 20, 200);
 	static const int tt[] = { 2, 4, 8 };
 	int              task = tt[vf_below(&r, 3)], expi = (int) vf_range(&r, 1, 2), poll = (int) vf_range(&r, 1, 2);
@@ -2966,6 +3192,23 @@ run_random_program(long idx)
 	vf_case_begin(idx, "random program: %ld calls, %d driver thread(s)%s, pools %d/%d/%d", ops_target, nthr, race_prog ? ", closes race with pending operations" : "", task, expi, poll);
 	vf_watchdog(30);
 	vf_nng_init(task, expi, poll);
+	// the stream transports of a sixth of the programs write in small pieces
+	// (with EAGAIN in between): frames stay partly written for long; in one of
+	// twenty programs one write fails outright
+	uint32_t iosel = vf_below(&r, 20);
+	vf_io_counters_reset();
+	if (iosel < 3) {
+		// (with several driver threads a synchronous dial holds its sockets
+		// while the handshake dribbles out: larger pieces there, so that a
+		// loaded machine does not turn this into seconds)
+		static const long pc[] = { 1, 2, 5, 16, 64 }, pcmt[] = { 8, 16, 32, 64, 128 };
+		vf_io_plan(iosel == 2 ? VF_IO_RANDOM : VF_IO_DRIBBLE, iosel == 2 ? 64 : (mt_mode ? pcmt : pc)[vf_below(&r, 5)], VF_IO_FULL, 0, vf_rand(&r));
+		vf_io_eagain_every(vf_chance(&r, 2, 3) ? 3 : 0);
+		vf_stat("short_io_programs", 1);
+	} else if (iosel == 3) {
+		vf_io_fail_send_at((long) vf_range(&r, 2, 150), vf_chance(&r, 1, 2) ? EPIPE : ECONNRESET);
+		vf_stat("write_fault_programs", 1);
+	}
 	for (int i = 0; i < nthr; i++) {
 		T[i].id = i;
 		vf_rng_seed(&T[i].r, vf_seed ^ 0x9e3779b97f4a7c15ULL * (uint64_t) (i + 1), (uint64_t) idx);
@@ -2987,8 +3230,8 @@ run_random_program(long idx)
 		for (int k = 0; k < nl && hub >= 0; k++) {
 			int leaf = open_socket(&T[0], peer_pk(hk), vf_chance(&r, 1, 5));
 			if (leaf >= 0) {
-				static const int ft[] = { VF_T_INPROC, VF_T_INPROC, VF_T_INPROC, VF_T_IPC, VF_T_TCP };
-				op_connect(&T[0], hub, leaf, ft[vf_below(&r, 5)]);
+				static const int ft[] = { VF_T_INPROC, VF_T_INPROC, VF_T_INPROC, VF_T_IPC, VF_T_TCP, T_UDP };
+				op_connect(&T[0], hub, leaf, ft[vf_below(&r, 6)]);
 			}
 		}
 		// fan-out inside one SUB socket: every subscribed context (and the
@@ -3011,10 +3254,38 @@ run_random_program(long idx)
 			}
 		}
 		vf_stat("fanout_topologies", 1);
+	} else if (vf_chance(&r, 1, 7)) {
+		// a device chain: cooked A - [raw | raw device] - cooked B; what A
+		// sends reaches B only through the device (and back)
+		static const int ch[][2] = { { P_REQ, P_REP }, { P_REQ, P_REP }, { P_SURV, P_RESP }, { P_PUB, P_SUB }, { P_PUSH, P_PULL }, { P_PAIR1, P_PAIR1 }, { P_PAIR0, P_PAIR0 }, { P_BUS, P_BUS } };
+		static const int ft[] = { VF_T_INPROC, VF_T_INPROC, VF_T_IPC, VF_T_TCP };
+		int              c    = (int) vf_below(&r, 8);
+		int              a = open_socket(&T[0], ch[c][0], false), d1 = open_socket(&T[0], ch[c][1], true);
+		int              d2 = open_socket(&T[0], ch[c][0], true), b = open_socket(&T[0], ch[c][1], false);
+		if (a >= 0 && b >= 0 && d1 >= 0 && d2 >= 0) {
+			bool early = vf_chance(&r, 1, 2); // device started before / after the first traffic
+			op_connect(&T[0], d1, a, ft[vf_below(&r, 4)]);
+			op_connect(&T[0], d2, b, ft[vf_below(&r, 4)]);
+			for (int k = 0; k < 2; k++) {
+				if (k == (early ? 0 : 1)) {
+					LOCK();
+					bool free2 = !S[d1].users && !S[d2].users && !pending_on(d1) && !pending_on(d2);
+					if (free2) S[d1].closing = S[d2].closing = true;
+					UNLOCK();
+					if (free2) device_start_pair(&T[0], d1, d2, true, false);
+				} else {
+					for (int n = 0; n < 3; n++) op_send(&T[0]);
+				}
+			}
+			dev_end[0] = a;
+			dev_end[1] = b;
+			vf_stat("device_chains", 1);
+		}
 	} else if (!vf_chance(&r, 1, 10)) {
 		int  pk = (int) vf_below(&r, P_N);
 		bool ra = vf_chance(&r, 1, 4), rb = vf_chance(&r, 1, 4);
 		if (pk == P_PAIR1 || pk == P_PAIR0) rb = ra; // raw/cooked pair1 differ on the wire
+		if (pk == P_PAIR1P) ra = rb = false;
 		int a = open_socket(&T[0], pk, ra);
 		int b = open_socket(&T[0], peer_pk(pk), rb);
 		bool sw = vf_chance(&r, 1, 2);
@@ -3033,11 +3304,688 @@ run_random_program(long idx)
 		if (vf_chance(&r, 1, 3)) op_failed_stream(&T[0]);
 	}
 	teardown(&T[0]);
+	vf_stat("io_short_sends", vf_io_short_sends());
+	vf_io_plan(VF_IO_FULL, 0, VF_IO_FULL, 0, 0);
+	vf_io_eagain_every(0);
+	vf_io_fail_send_at(0, 0);
 	finish_program();
 	if ((idx & 63) == 0) {
 		vf_sample("{\"program\":%ld,\"calls\":%ld,\"threads\":%d,\"last_calls\":[\"%s\",\"%s\",\"%s\"]}", idx, ops_target, nthr,
 		    trace_buf[(atomic_load(&trace_n) + TRN - 4) % TRN], trace_buf[(atomic_load(&trace_n) + TRN - 3) % TRN], trace_buf[(atomic_load(&trace_n) + TRN - 2) % TRN]);
 	}
+}
+
+// ---------------------------------------------------------------- stall mode
+// Directed programs against STALLED peers.  The peer of the socket under test
+// is a raw file descriptor driven by the harness: it completes the SP
+// handshake, sends what the protocol needs to accept replies (requests,
+// surveys) and then does not read.  The kernel buffer between the two is
+// small (unix-domain sockets, socketpair with a minimal SO_SNDBUF) or is filled
+// first (tcp), and nng's own writes can be cut into pieces by the short-I/O
+// interposer, so that "pipe busy for long / send queue full / frame partly
+// written" are stable states instead of microsecond windows.  In those states
+// the program cancels / aborts / stops / frees the pending sends, closes the
+// pipe, a context, an endpoint or the socket, resizes the send buffer, lets
+// the peer read a little or everything, closes the peer, makes nng's next
+// write fail, and lets the peer send the next request while the previous
+// reply is still queued.  No new verdicts: the ledger, the allocator balance
+// and ASan judge as everywhere else.
+#define MAXR 3
+typedef struct {
+	int      fd, lfd; // connection (-1: closed); raw listener when nng dialed (-1: none)
+	int      tran;
+	bool     ipc;     // ipc framing (leading type octet)
+	uint32_t pipe;    // id of the pipe on our socket
+	char     path[96];
+} rawpeer;
+static rawpeer R[MAXR];
+
+typedef struct {
+	const char *name;
+	int         pk;
+	bool        raw;
+	int         nctx;      // contexts the scenario sends through (0: the socket)
+	bool        responder; // replies need a request from the peer first
+	bool        drops;     // full send queue drops instead of making the sender wait
+	int         weight;
+} stallkind;
+
+static const stallkind stallkinds[] = {
+	{ "rep.ctx", P_REP, false, 3, true, false, 5 },
+	{ "respondent.ctx", P_RESP, false, 3, true, false, 4 },
+	{ "rep", P_REP, false, 0, true, false, 3 },
+	{ "respondent", P_RESP, false, 0, true, false, 2 },
+	{ "xrep", P_REP, true, 0, true, true, 3 },
+	{ "xrespondent", P_RESP, true, 0, true, true, 2 },
+	{ "pub", P_PUB, false, 0, false, true, 4 },
+	{ "xpub", P_PUB, true, 0, false, true, 1 },
+	{ "bus", P_BUS, false, 0, false, true, 2 },
+	{ "xbus", P_BUS, true, 0, false, true, 1 },
+	{ "surveyor", P_SURV, false, 0, false, true, 1 },
+	{ "surveyor.ctx", P_SURV, false, 2, false, true, 1 },
+	{ "xsurveyor", P_SURV, true, 0, false, true, 1 },
+	{ "pair0", P_PAIR0, false, 0, false, false, 1 },
+	{ "xpair0", P_PAIR0, true, 0, false, false, 1 },
+	{ "pair1", P_PAIR1, false, 0, false, false, 2 },
+	{ "xpair1", P_PAIR1, true, 0, false, false, 1 },
+	{ "pair1poly", P_PAIR1P, false, 0, false, true, 2 },
+	{ "push", P_PUSH, false, 0, false, false, 2 },
+	{ "xpush", P_PUSH, true, 0, false, false, 1 },
+	{ "req", P_REQ, false, 0, false, false, 1 },
+	{ "req.ctx", P_REQ, false, 3, false, false, 2 },
+	{ "xreq", P_REQ, true, 0, false, false, 2 },
+};
+#define NSTALLKINDS ((int) (sizeof(stallkinds) / sizeof(stallkinds[0])))
+
+typedef struct {
+	thr             *t;
+	const stallkind *k;
+	int              si, npeers, tran;
+	bool             big;   // message sizes 16-70 KB (else 100-4000 bytes)
+	uint32_t         reqid;
+	int              stuck; // send aios that stayed pending after the library went idle
+	int              sends;
+	bool             sock_closed;
+	char             tname[24];
+} stall;
+
+static void
+raw_close(rawpeer *rp)
+{
+	if (rp->fd >= 0) close(rp->fd);
+	rp->fd = -1;
+}
+
+// connect one raw peer to model socket si; returns false if that did not work
+static bool
+raw_attach(stall *st, rawpeer *rp, int tran, bool nng_dials, bool tiny)
+{
+	static atomic_int n;
+	sockm            *s = &S[st->si];
+	char              url[128];
+	uint32_t          before[16];
+	nng_listener      l = { 0 };
+	nng_dialer        d = { 0 };
+	int               rv = -1, ep;
+	uint16_t          port = 0, got = 0;
+	memset(rp, 0, sizeof(*rp));
+	rp->fd = rp->lfd = -1;
+	rp->tran         = tran;
+	rp->ipc          = tran == VF_T_IPC;
+	pthread_mutex_lock(&s->pmx);
+	memcpy(before, s->alive, sizeof(before));
+	pthread_mutex_unlock(&s->pmx);
+	atomic_fetch_or(&trans_used, 1u << tran);
+	snprintf(rp->path, sizeof(rp->path), "/tmp/vf-c03-raw-%d-%d.sock", (int) getpid(), atomic_fetch_add(&n, 1));
+	if (tran == VF_T_SOCKFD) {
+		int fds[2];
+		if (socketpair(AF_UNIX, SOCK_STREAM | SOCK_CLOEXEC, 0, fds) != 0) return false;
+		if (tiny) {
+			int v = 1; // the kernel rounds up to its minimum (a few KB)
+			setsockopt(fds[0], SOL_SOCKET, SO_SNDBUF, &v, sizeof(v));
+		}
+		rv = nng_listener_create(&l, s->h, "socket://");
+		if (rv == 0) rv = nng_listener_start(l, 0);
+		if (rv == 0) rv = nng_listener_set_int(l, NNG_OPT_SOCKET_FD, fds[0]);
+		if (rv != 0) {
+			close(fds[0]);
+			close(fds[1]);
+			return false;
+		}
+		rp->fd = fds[1];
+	} else if (!nng_dials) {
+		if (tran == VF_T_IPC) {
+			snprintf(url, sizeof(url), "ipc://%s", rp->path);
+			rv = nng_listen(s->h, url, &l, 0);
+			if (rv == 0) rp->fd = vf_unix_connect(rp->path, 5000);
+		} else {
+			int p = 0;
+			rv    = nng_listen(s->h, "tcp://127.0.0.1:0", &l, 0);
+			if (rv == 0) rv = nng_listener_get_int(l, NNG_OPT_BOUND_PORT, &p);
+			if (rv == 0) rp->fd = vf_tcp_connect((uint16_t) p, 5000);
+		}
+		if (rv != 0 || rp->fd < 0) return false;
+	} else {
+		if (tran == VF_T_IPC) {
+			snprintf(url, sizeof(url), "ipc://%s", rp->path);
+			rp->lfd = vf_unix_listen(rp->path);
+		} else {
+			rp->lfd = vf_tcp_listen(&port);
+			snprintf(url, sizeof(url), "tcp://127.0.0.1:%u", (unsigned) port);
+		}
+		if (rp->lfd < 0) return false;
+		rv = nng_dial(s->h, url, &d, NNG_FLAG_NONBLOCK);
+		if (rv == 0) rp->fd = vf_tcp_accept(rp->lfd, 5000);
+		if (rv != 0 || rp->fd < 0) return false;
+	}
+	LOCK();
+	if ((ep = free_ep_slot()) >= 0) {
+		E[ep].open   = true;
+		E[ep].dialer = nng_dials && tran != VF_T_SOCKFD;
+		E[ep].s      = st->si;
+		E[ep].tran   = tran;
+		E[ep].l      = l;
+		E[ep].d      = d;
+		E[ep].url[0] = 0;
+	}
+	UNLOCK();
+	if (vf_sp_handshake(rp->fd, PR[st->k->pk].peer, &got, 10000) != 0 || got != PR[st->k->pk].self) {
+		raw_close(rp);
+		return false;
+	}
+	// the pipe this connection became
+	for (int i = 0; i < 10000 && rp->pipe == 0; i++) {
+		pthread_mutex_lock(&s->pmx);
+		for (int k = 0; k < 16 && rp->pipe == 0; k++) {
+			bool old = s->alive[k] == 0;
+			for (int j = 0; j < 16 && !old; j++) old = before[j] == s->alive[k];
+			if (!old) rp->pipe = s->alive[k];
+		}
+		pthread_mutex_unlock(&s->pmx);
+		if (rp->pipe == 0) vf_usleep(500);
+	}
+	tr("raw peer over %s (%s%s): fd %d, pipe %u", tn(tran), nng_dials ? "nng dials" : "nng listens", tiny ? ", minimal SO_SNDBUF" : "", rp->fd, rp->pipe);
+	return rp->pipe != 0;
+}
+
+// the peer sends one frame: protocol header words + a self-describing body
+static bool
+raw_send(stall *st, rawpeer *rp, size_t blen)
+{
+	uint8_t buf[8 + 1100];
+	size_t  n = 0;
+	if (rp->fd < 0) return false;
+	if (blen > 1024) blen = 1024;
+	uint32_t w = 0;
+	switch (st->k->pk) {
+	case P_REP:
+	case P_RESP:
+	case P_REQ:
+	case P_SURV:
+		w = 0x80000000u | ++st->reqid; // request / survey id (a reply nobody waits for is discarded)
+		break;
+	case P_PAIR1:
+	case P_PAIR1P:
+		w = 1; // hop count
+		break;
+	default:
+		break;
+	}
+	if (w != 0) {
+		buf[n++] = (uint8_t) (w >> 24);
+		buf[n++] = (uint8_t) (w >> 16);
+		buf[n++] = (uint8_t) (w >> 8);
+		buf[n++] = (uint8_t) w;
+	}
+	if (blen >= VF_BODY_MIN) {
+		vf_body_make(buf + n, blen, BODY_TAG, body_record('B', blen, 0, buf, "rawpeer"));
+	} else {
+		memset(buf + n, 0x52, blen);
+	}
+	n += blen;
+	bool ok = vf_sp_send_frame(rp->fd, rp->ipc, buf, n) == 0;
+	if (ok) vf_stat("stall_peer_frames_sent", 1);
+	return ok;
+}
+
+// the peer reads (and discards) up to max bytes that are there right now
+static long
+raw_drain(rawpeer *rp, long max)
+{
+	static uint8_t sink[65536];
+	long           got = 0;
+	while (rp->fd >= 0 && got < max) {
+		size_t  want = (size_t) (max - got) < sizeof(sink) ? (size_t) (max - got) : sizeof(sink);
+		ssize_t n    = recv(rp->fd, sink, want, MSG_DONTWAIT);
+		if (n <= 0) break;
+		got += n;
+	}
+	return got;
+}
+
+static void
+stall_tg(stall *st, int ci, target *tg)
+{
+	LOCK();
+	tg->si  = st->si;
+	tg->ci  = ci;
+	tg->hs  = S[st->si].h;
+	tg->pk  = S[st->si].pk;
+	tg->raw = S[st->si].raw;
+	if (ci >= 0) tg->hc = C[ci].h;
+	snprintf(tg->pname, sizeof(tg->pname), "%s", S[st->si].name);
+	phase_of(st->si, ci, tg->phase, sizeof(tg->phase));
+	UNLOCK();
+}
+
+static int
+stall_pick_ctx(stall *st)
+{
+	if (st->k->nctx == 0) return -1;
+	int start = (int) vf_below(&st->t->r, MAXC);
+	for (int k = 0; k < MAXC; k++) {
+		int ci = (start + k) % MAXC;
+		if (C[ci].open && !C[ci].closing) return ci;
+	}
+	return -1;
+}
+
+static rawpeer *
+stall_pick_peer(stall *st, bool connected)
+{
+	int start = (int) vf_below(&st->t->r, MAXR);
+	for (int k = 0; k < MAXR; k++) {
+		rawpeer *rp = &R[(start + k) % MAXR];
+		if (rp->pipe != 0 && (!connected || rp->fd >= 0)) return rp;
+	}
+	return NULL;
+}
+
+// a responder needs a request before it may reply: the peer sends one and the
+// socket / context receives it.  Returns the pipe it came from (0: none).
+static uint32_t
+stall_get_request(stall *st, int ci)
+{
+	target   tg;
+	nng_msg *m    = NULL;
+	uint32_t pipe = 0;
+	rawpeer *rp   = stall_pick_peer(st, true);
+	stall_tg(st, ci, &tg);
+	if (rp == NULL || !raw_send(st, rp, (size_t) vf_range(&st->t->r, 0, 300))) return 0;
+	uint64_t end = vf_now_ns() + 3000000000ULL;
+	for (;;) {
+		int rv = ci >= 0 ? nng_ctx_recvmsg(tg.hc, &m, NNG_FLAG_NONBLOCK) : nng_recvmsg(tg.hs, &m, NNG_FLAG_NONBLOCK);
+		if (rv == 0) break;
+		if (rv != NNG_EAGAIN || vf_now_ns() > end) {
+			tr("t0 request for %s%s did not arrive: %s", tg.pname, ci >= 0 ? ".ctx" : "", nng_strerror(rv));
+			vf_stat("stall_requests_not_received", 1);
+			return 0;
+		}
+		vf_usleep(200);
+	}
+	pipe       = nng_msg_get_pipe(m).id;
+	led_rcv_id = RCV_ID(st->si, ci);
+	if (led_take(m, L_APP, tg.pname, ci >= 0 ? "nng_ctx_recvmsg" : "nng_recvmsg", NULL)) {
+		note_pipe(st->si, pipe);
+		vf_stat("recvs_ok", 1);
+		vf_stat("stall_requests_received", 1);
+	}
+	LOCK();
+	model_after_recv(st->si, ci, 0);
+	UNLOCK();
+	return pipe;
+}
+
+static size_t
+stall_size(stall *st)
+{
+	vf_rng *r = &st->t->r;
+	if (st->tran == VF_T_TCP) return 60000 + vf_below(r, 14000); // (the kernel takes megabytes)
+	if (st->big) return vf_chance(r, 1, 5) ? 60000 + vf_below(r, 14000) : 16000 + vf_below(r, 40000);
+	return vf_chance(r, 1, 8) ? vf_below(r, 100) : 100 + vf_below(r, 3900);
+}
+
+// one send on the socket / a context; form 0 blocking, 1 non-blocking, 2 aio.
+// Returns the aio slot if the send is an aio that the library still holds.
+static int
+stall_send(stall *st, int form, nng_duration to)
+{
+	thr     *t  = st->t;
+	int      ci = stall_pick_ctx(st), ai = -1, mslot = -1;
+	uint32_t route = 0;
+	target   tg;
+	if (st->k->nctx > 0 && ci < 0) return -1; // all contexts closed
+	if (st->k->responder) {
+		route = stall_get_request(st, ci);
+	} else {
+		rawpeer *rp = stall_pick_peer(st, false);
+		route       = rp != NULL ? rp->pipe : 0;
+	}
+	stall_tg(st, ci, &tg);
+	if (form == 2) {
+		LOCK();
+		ai = claim_idle_aio(t, false);
+		UNLOCK();
+		if (ai < 0) form = (int) vf_below(&t->r, 2);
+	}
+	nng_msg *m = NULL;
+	if (vf_chance(&t->r, 1, 4)) m = led_pick(&t->r, &mslot); // something received / handed back earlier
+	if (m != NULL && st->k->raw && nng_msg_header_len(m) == 0 && (st->k->pk == P_REP || st->k->pk == P_RESP)) {
+		nng_msg_header_append_u32(m, route ? route : 1);
+		nng_msg_header_append_u32(m, 0x80000000u | (uint32_t) vf_rand(&t->r));
+	}
+	if (m == NULL) m = build_msg(&t->r, tg.pk, tg.raw, route, stall_size(st), &mslot);
+	if (m == NULL) {
+		if (ai >= 0) unclaim(ai);
+		return -1;
+	}
+	st->sends++;
+	vf_stat("stall_sends", 1);
+	if (form == 2) {
+		reap_aio(ai);
+		cell("aio_send", &tg);
+		tr("t0 aio%d send %s%s msg=%zu to=%d [%s]", ai, tg.pname, ci >= 0 ? ".ctx" : "", nng_msg_len(m), (int) to, tg.phase);
+		A[ai].eiters = 0;
+		submit_oneshot(ai, &tg, K_SEND, m, mslot, to, to != NNG_DURATION_INFINITE);
+		unclaim(ai);
+		vf_stat("aio_sends", 1);
+		return nng_aio_busy(A[ai].a) ? ai : -1;
+	}
+	int fl = form == 1 ? NNG_FLAG_NONBLOCK : 0;
+	cell(fl ? "sendmsg_nb" : "sendmsg", &tg);
+	tr("t0 sendmsg%s %s%s msg=%zu [%s]", fl ? "(NB)" : "", tg.pname, ci >= 0 ? ".ctx" : "", nng_msg_len(m), tg.phase);
+	int rv = ci >= 0 ? nng_ctx_sendmsg(tg.hc, m, fl) : nng_sendmsg(tg.hs, m, fl);
+	if (rv == 0) led_give(mslot); else led_release(mslot, tg.pname);
+	vf_stat(rv == 0 ? "sends_ok" : "sends_failed", 1);
+	vf_class("stall-send/%s/%s/%s/%s", st->k->name, st->tname, fl ? "nonblock" : "blocking", rv == 0 ? "ok" : nng_strerror(rv));
+	LOCK();
+	model_after_send(st->si, ci, rv);
+	UNLOCK();
+	return -1;
+}
+
+// send aios the library still holds although it has nothing left to do: stuck
+static int
+stall_count_stuck(void)
+{
+	int n = 0;
+	(void) vf_quiesce(1, 2000);
+	for (int i = 0; i < MAXA; i++) {
+		if (A[i].st == A_PEND && A[i].kind == K_SEND && !A[i].finite && !atomic_load(&A[i].done) && nng_aio_busy(A[i].a)) n++;
+	}
+	return n;
+}
+
+// what became of the one-shot sends since the last look (evidence only)
+static void
+stall_note_results(stall *st, const char *after)
+{
+	for (int i = 0; i < MAXA; i++) {
+		aiom *a = &A[i];
+		if (a->st == A_PEND && a->kind == K_SEND && atomic_load(&a->done) && a->eiters == 0) {
+			a->eiters = 1; // noted (the field is otherwise used by echo loops only)
+			vf_class("stall/%s/%s/after-%s/send-%s", st->k->name, st->tname, after, a->result == 0 ? "ok" : nng_strerror(a->result));
+		}
+	}
+}
+
+// statistics of the socket under test that tell what its send path did
+static void
+stall_lib_stats(stall *st)
+{
+	nng_stat *all = NULL;
+	if (nng_stats_get(&all) != 0) return;
+	const nng_stat *ss = nng_stat_find_socket(all, S[st->si].h);
+	for (const nng_stat *c = ss ? nng_stat_child(ss) : NULL; c != NULL; c = nng_stat_next(c)) {
+		const char *nm = nng_stat_name(c);
+		if ((strstr(nm, "discard") || strstr(nm, "drop") || strstr(nm, "queued")) && nng_stat_type(c) != NNG_STAT_STRING && nng_stat_value(c) > 0) {
+			char sk[80];
+			snprintf(sk, sizeof(sk), "stall_libstat/%s/%s", st->k->name, nm);
+			vf_stat(sk, (long) nng_stat_value(c));
+		}
+	}
+	nng_stats_free(all);
+}
+
+enum { SA_CANCEL = 0, SA_ABORT, SA_STOP, SA_FREE, SA_TIMED, SA_MORE, SA_PIPE_CLOSE, SA_CTX_CLOSE, SA_SENDBUF, SA_SETOPT, SA_DRAIN_SOME, SA_DRAIN_ALL, SA_PEER_CLOSE, SA_WRITE_FAULT, SA_EP_CLOSE, SA_SOCK_CLOSE, SA_RECV, SA_PEER_SENDS, SA_N };
+static const char *sa_names[SA_N] = { "cancel", "abort", "stop", "free", "timed-send", "more-sends", "pipe-close", "ctx-close", "sendbuf", "setopt", "drain-some", "drain-all", "peer-close", "write-fault", "ep-close", "socket-close", "recv", "peer-sends" };
+
+static int
+stall_pending_send(stall *st)
+{
+	int start = (int) vf_below(&st->t->r, MAXA);
+	for (int k = 0; k < MAXA; k++) {
+		int i = (start + k) % MAXA;
+		if (A[i].st == A_PEND && A[i].kind == K_SEND && !atomic_load(&A[i].done)) return i;
+	}
+	return -1;
+}
+
+static void
+stall_action(stall *st, int act)
+{
+	thr     *t = st->t;
+	int      ai;
+	rawpeer *rp;
+	tr("t0 stall action %s", sa_names[act]);
+	switch (act) {
+	case SA_CANCEL:
+	case SA_ABORT:
+	case SA_STOP:
+		if ((ai = stall_pending_send(st)) < 0) return;
+		claim_wait(ai);
+		finish_echo_or_pend(t, ai, act == SA_CANCEL ? 0 : act == SA_ABORT ? 1 : 2);
+		unclaim(ai);
+		break;
+	case SA_FREE: {
+		if ((ai = stall_pending_send(st)) < 0) return;
+		aiom *a = &A[ai];
+		claim_wait(ai);
+		vf_class("aio_free/direct/pending-send/%s", st->k->name);
+		vf_stat("aio_freed_while_pending", 1);
+		nng_aio_free(a->a); // stops the operation, waits for the callback
+		if (nng_aio_alloc(&a->a, aio_cb, a) != 0) vf_harness_fail("nng_aio_alloc");
+		LOCK();
+		a->st      = A_IDLE;
+		a->stopped = a->stop_used = false;
+		UNLOCK();
+		unclaim(ai);
+		break;
+	}
+	case SA_TIMED:
+		ai = stall_send(st, 2, (nng_duration) vf_range(&t->r, 1, 25));
+		if (ai >= 0) {
+			claim_wait(ai);
+			bool busy = nng_aio_busy(A[ai].a);
+			nng_aio_wait(A[ai].a); // finite: completes by itself
+			note_pending_hit(busy, true, st->k->name, A[ai].result, NNG_ETIMEDOUT);
+			unclaim(ai);
+		}
+		break;
+	case SA_MORE:
+		for (int n = (int) vf_range(&t->r, 1, 4); n > 0 && !st->sock_closed; n--) {
+			(void) stall_send(st, (int) vf_below(&t->r, 3), NNG_DURATION_INFINITE);
+		}
+		break;
+	case SA_PIPE_CLOSE:
+		if ((rp = stall_pick_peer(st, false)) == NULL) return;
+		vf_stat("pipe_closes", 1);
+		if (nng_pipe_close((nng_pipe) { rp->pipe }) == 0) vf_stat("pipe_closes_ok", 1);
+		break;
+	case SA_CTX_CLOSE: {
+		int ci = stall_pick_ctx(st);
+		if (ci < 0) return;
+		op_ctx_close(t, ci);
+		break;
+	}
+	case SA_SENDBUF: {
+		static const int v[] = { 0, 1, 2, 3, 8, 64, 1 };
+		int              x   = v[vf_below(&t->r, 7)];
+		int              rv  = nng_socket_set_int(S[st->si].h, NNG_OPT_SENDBUF, x);
+		vf_stat("opt_sets", 1);
+		if (rv == 0) vf_stat("opt_sets_ok", 1);
+		vf_class("stall-opt/SENDBUF=%d/%s/%s", x, st->k->name, rv == 0 ? "ok" : nng_strerror(rv));
+		break;
+	}
+	case SA_SETOPT:
+		op_setopt(t);
+		break;
+	case SA_DRAIN_SOME:
+	case SA_DRAIN_ALL: {
+		if ((rp = stall_pick_peer(st, true)) == NULL) return;
+		long got = 0;
+		if (act == SA_DRAIN_SOME) {
+			got = raw_drain(rp, (long) vf_range(&t->r, 1, st->big ? 100000 : 5000));
+			(void) vf_quiesce(1, 1000);
+		} else {
+			// until nothing comes any more and the library has gone idle
+			for (int idle = 0, n = 0; idle < 2 && n < 4000; n++) {
+				long g = raw_drain(rp, 1 << 22);
+				got += g;
+				if (g == 0) idle += vf_quiesce(1, 1000) ? 1 : 0; else idle = 0;
+			}
+		}
+		vf_stat("stall_peer_bytes_drained", got);
+		break;
+	}
+	case SA_PEER_CLOSE:
+		if ((rp = stall_pick_peer(st, true)) == NULL) return;
+		if (vf_chance(&t->r, 1, 2)) (void) raw_drain(rp, (long) vf_range(&t->r, 1, 3000)); // unread data left: the close is a reset
+		raw_close(rp);
+		(void) vf_quiesce(1, 1000);
+		break;
+	case SA_WRITE_FAULT: {
+		if ((rp = stall_pick_peer(st, true)) == NULL) return;
+		static const int errs[] = { EPIPE, ECONNRESET };
+		vf_io_fail_send_at((long) vf_range(&t->r, 1, 3), errs[vf_below(&t->r, 2)]);
+		(void) raw_drain(rp, 1 << 22); // room again: the library writes on, and meets the fault
+		(void) vf_quiesce(1, 1000);
+		vf_io_fail_send_at(0, 0);
+		vf_stat("stall_write_faults", 1);
+		break;
+	}
+	case SA_EP_CLOSE:
+		op_ep_close(t);
+		break;
+	case SA_SOCK_CLOSE:
+		op_sock_close(t, st->si);
+		st->sock_closed = true;
+		break;
+	case SA_RECV:
+		op_recv(t);
+		break;
+	case SA_PEER_SENDS:
+		if ((rp = stall_pick_peer(st, true)) == NULL) return;
+		for (int n = (int) vf_range(&t->r, 1, 3); n > 0; n--) (void) raw_send(st, rp, (size_t) vf_range(&t->r, 0, 600));
+		break;
+	default:
+		break;
+	}
+	vf_stat("stall_actions", 1);
+}
+
+static void
+run_stall_program(long idx)
+{
+	thr    T0;
+	vf_rng r;
+	stall  st;
+	memset(&st, 0, sizeof(st));
+	uint64_t t_begin = vf_now_ns();
+	vf_rng_seed(&r, vf_seed, (uint64_t) idx);
+	model_reset();
+	for (int i = 0; i < MAXR; i++) R[i].fd = R[i].lfd = -1, R[i].pipe = 0;
+	// kind (by weight), transport, kernel buffer, short writes
+	int wsum = 0, pickw;
+	for (int i = 0; i < NSTALLKINDS; i++) wsum += stallkinds[i].weight;
+	pickw = (int) vf_below(&r, (uint32_t) wsum);
+	for (int i = 0; i < NSTALLKINDS; i++) {
+		st.k = &stallkinds[i];
+		if ((pickw -= stallkinds[i].weight) < 0) break;
+	}
+	static const int trs[] = { VF_T_IPC, VF_T_IPC, VF_T_SOCKFD, VF_T_SOCKFD, VF_T_TCP };
+	int              tran  = trs[vf_below(&r, 5)];
+	bool             tiny  = tran == VF_T_SOCKFD && vf_chance(&r, 2, 3);
+	bool             dials = tran != VF_T_SOCKFD && vf_chance(&r, 1, 3);
+	int              iom   = (int) vf_below(&r, 3); // 0 full writes, 1 fixed pieces, 2 random pieces
+	static const long smallp[] = { 1, 2, 3, 9, 17, 64, 300 }, bigp[] = { 64, 300, 1000, 4096, 20000 };
+	st.tran = tran;
+	st.big  = tran == VF_T_TCP || (!tiny && (iom == 0 || vf_chance(&r, 1, 2)));
+	long iop    = st.big ? bigp[vf_below(&r, 5)] : smallp[vf_below(&r, 7)];
+	int  eagain = iom != 0 && vf_chance(&r, 1, 2) ? 3 : 0;
+	snprintf(st.tname, sizeof(st.tname), "%s%s%s", tn(tran), tiny ? "-tiny" : "", iom ? "-short" : "");
+	snprintf(prog_tag, sizeof(prog_tag), "stall program %ld", idx);
+	vf_case_begin(idx, "stall program: %s against stalled raw peer(s) over %s (%s), writes %s %ld%s, messages %s", st.k->name, tn(tran), dials ? "nng dials" : "nng listens", iom == 0 ? "full" : iom == 1 ? "in pieces of" : "in random pieces up to", iom ? iop : 0L, eagain ? " with EAGAIN injected" : "", st.big ? "16-74 KB" : "0-4 KB");
+	vf_watchdog(60);
+	vf_nng_init(2 + (int) vf_below(&r, 3), 1, 1 + (int) vf_below(&r, 2));
+	memset(&T0, 0, sizeof(T0));
+	vf_rng_seed(&T0.r, vf_seed ^ 0x9e3779b97f4a7c15ULL, (uint64_t) idx);
+	st.t = &T0;
+	for (int i = 0; i < 6; i++) {
+		if (nng_aio_alloc(&A[i].a, aio_cb, &A[i]) != 0) vf_harness_fail("nng_aio_alloc");
+		A[i].st = A_IDLE;
+	}
+	st.si = open_socket(&T0, st.k->pk, st.k->raw);
+	if (st.si < 0) vf_harness_fail("stall: no socket slot");
+	sockm *s = &S[st.si];
+	nng_pipe_notify(s->h, NNG_PIPE_EV_ADD_PRE, pipe_cb, s);
+	nng_pipe_notify(s->h, NNG_PIPE_EV_ADD_POST, pipe_cb, s);
+	nng_pipe_notify(s->h, NNG_PIPE_EV_REM_POST, pipe_cb, s);
+	nng_socket_set_ms(s->h, NNG_OPT_SENDTIMEO, (nng_duration) vf_range(&r, 2, 20));
+	if (vf_chance(&r, 2, 3)) nng_socket_set_int(s->h, NNG_OPT_SENDBUF, (int) vf_below(&r, 5));
+	for (int k = 0; k < st.k->nctx; k++) op_ctx_open_on(&T0, st.si);
+	vf_io_counters_reset();
+	if (iom != 0) {
+		vf_io_plan(iom == 1 ? VF_IO_DRIBBLE : VF_IO_RANDOM, iop, VF_IO_FULL, 0, vf_rand(&r));
+		vf_io_eagain_every(eagain);
+	}
+	bool multi = st.k->pk == P_PUB || st.k->pk == P_BUS || st.k->pk == P_SURV || st.k->pk == P_PAIR1P || st.k->pk == P_REP || st.k->pk == P_PUSH;
+	st.npeers  = multi && vf_chance(&r, 1, 3) ? 2 : 1;
+	int att    = 0;
+	for (int j = 0; j < st.npeers; j++) {
+		if (raw_attach(&st, &R[j], tran, dials, tiny)) att++;
+	}
+	if (att == 0) {
+		vf_stat("stall_attach_failed", 1);
+	} else {
+		vf_stat("stall_attached", att);
+		// fill: sends as aios until some of them stay pending with the library
+		// idle (or, where a full queue drops, the queue has certainly overflowed)
+		int want  = 1 + (int) vf_below(&r, 3);
+		int limit = st.k->drops ? (tran == VF_T_TCP ? 130 : tiny ? 8 : 16) + (int) vf_below(&r, 8) : tran == VF_T_TCP ? 200 : 30;
+		if (!st.big && !tiny) limit = st.k->drops ? 40 : 100;
+		for (int n = 0; n < limit; n++) {
+			int form = vf_chance(&r, 5, 6) ? 2 : (int) vf_below(&r, 2);
+			int ai   = stall_send(&st, form, NNG_DURATION_INFINITE);
+			if (ai >= 0 && (st.stuck = stall_count_stuck()) >= want) break;
+			if ((n & 15) == 15) vf_watchdog(60);
+		}
+		st.stuck = stall_count_stuck();
+		stall_note_results(&st, "fill");
+		stall_lib_stats(&st);
+		char sk[64];
+		if (st.stuck > 0) {
+			vf_stat("stall_programs_stuck", 1);
+			snprintf(sk, sizeof(sk), "stall_stuck_sends/%s", st.k->name);
+			vf_stat(sk, st.stuck);
+			vf_class("stall-reached/%s/%s/stuck%d", st.k->name, st.tname, st.stuck > 3 ? 3 : st.stuck);
+		} else {
+			vf_class("stall-reached/%s/%s/none-pending", st.k->name, st.tname);
+		}
+		snprintf(sk, sizeof(sk), "stall_programs/%s", st.k->name);
+		vf_stat(sk, 1);
+		// actions in the stalled state
+		int nact = (int) vf_range(&r, 3, 9);
+		for (int n = 0; n < nact && !st.sock_closed; n++) {
+			static const int aw[] = { SA_CANCEL, SA_CANCEL, SA_ABORT, SA_STOP, SA_FREE, SA_TIMED, SA_MORE, SA_MORE, SA_PIPE_CLOSE, SA_PIPE_CLOSE, SA_CTX_CLOSE, SA_CTX_CLOSE, SA_SENDBUF, SA_SENDBUF, SA_SETOPT, SA_DRAIN_SOME, SA_DRAIN_SOME, SA_DRAIN_ALL, SA_PEER_CLOSE, SA_WRITE_FAULT, SA_EP_CLOSE, SA_SOCK_CLOSE, SA_RECV, SA_PEER_SENDS };
+			int              act  = aw[vf_below(&r, sizeof(aw) / sizeof(aw[0]))];
+			int              was  = stall_pending_send(&st) >= 0;
+			// the first thing that happens to a stuck send is mostly its own end
+			if (n == 0 && st.stuck > 0 && vf_chance(&r, 3, 4)) {
+				static const int first[] = { SA_CANCEL, SA_CANCEL, SA_ABORT, SA_ABORT, SA_STOP, SA_FREE, SA_TIMED, SA_CTX_CLOSE };
+				act = first[vf_below(&r, 8)];
+			}
+			stall_action(&st, act);
+			if (!st.sock_closed) (void) vf_quiesce(1, 1000);
+			stall_note_results(&st, sa_names[act]);
+			vf_class("stall-action/%s/%s/%s", st.k->name, sa_names[act], was ? "sends-pending" : "nothing-pending");
+			vf_watchdog(60);
+		}
+	}
+	vf_stat("calls", st.sends + 20);
+	vf_stat("io_short_sends", vf_io_short_sends());
+	teardown(&T0);
+	vf_io_plan(VF_IO_FULL, 0, VF_IO_FULL, 0, 0);
+	vf_io_eagain_every(0);
+	vf_io_fail_send_at(0, 0);
+	for (int j = 0; j < MAXR; j++) {
+		raw_close(&R[j]);
+		if (R[j].lfd >= 0) close(R[j].lfd);
+		R[j].lfd = -1;
+		if (R[j].path[0]) unlink(R[j].path);
+	}
+	finish_program();
+	if (getenv("C03_TIMING") != NULL) fprintf(stderr, "C03 timing: case %ld %s %s: %.0f ms\n", idx, st.k->name, st.tname, (double) (vf_now_ns() - t_begin) / 1e6);
 }
 
 // ---------------------------------------------------------------- matrix mode
@@ -3084,6 +4032,7 @@ static const mpair mpairs[] = {
 	{ "xsurveyor-xrespondent", P_SURV, true, P_RESP, true, false, "AsBrBeArAsBrBeAr" },
 	{ "bus", P_BUS, false, P_BUS, false, false, "AsAsAsBrBrBrBsAr" },
 	{ "xbus", P_BUS, true, P_BUS, true, false, "AsAsAsBrBrBrBsAr" },
+	{ "pair1poly", P_PAIR1P, false, P_PAIR1, false, false, DUPLEX },
 };
 #define NMPAIRS ((int) (sizeof(mpairs) / sizeof(mpairs[0])))
 
@@ -3141,15 +4090,23 @@ run_matrix_case(long idx, const mpair *mp, int pos, int side, const optdef *o, l
 	vf_rng_seed(&r, vf_seed, (uint64_t) idx);
 	model_reset();
 	snprintf(prog_tag, sizeof(prog_tag), "matrix %s %s=%s@%s/%c", mp->name, o->tag, vt, posn, "AB"[side]);
-	vf_case_begin(idx, "matrix: pair %s over %s, set %s=%s on side %c at position %s of script %s", mp->name, vf_tran_names[tran], o->tag, vt, "AB"[side], posn, mp->script);
+	vf_case_begin(idx, "matrix: pair %s over %s, set %s=%s on side %c at position %s of script %s", mp->name, tn(tran), o->tag, vt, "AB"[side], posn, mp->script);
 	vf_watchdog(30);
 	vf_nng_init(2, 1, 1);
+	// a quarter of the cases over stream transports: writes in small pieces
+	bool shortio = tran != VF_T_INPROC && (vf_mix64(vf_seed + (uint64_t) idx * 977) & 3) == 0;
+	vf_io_counters_reset();
+	if (shortio) {
+		vf_io_plan(VF_IO_DRIBBLE, 8 + (long) (vf_mix64((uint64_t) idx) % 57), VF_IO_FULL, 0, (uint64_t) idx);
+		vf_io_eagain_every(3);
+		vf_stat("short_io_programs", 1);
+	}
 	memset(X, 0, sizeof(X));
 	for (int k = 0; k < 2; k++) {
 		X[k].pk    = k == 0 ? mp->pa : mp->pb;
 		X[k].raw   = k == 0 ? mp->rawa : mp->rawb;
-		X[k].pname = vf_protos[X[k].pk].name;
-		int rv     = X[k].raw ? vf_protos[X[k].pk].open_raw(&X[k].s) : vf_protos[X[k].pk].open(&X[k].s);
+		X[k].pname = PR[X[k].pk].name;
+		int rv     = X[k].raw ? PR[X[k].pk].open_raw(&X[k].s) : PR[X[k].pk].open(&X[k].s);
 		if (rv != 0) vf_harness_fail("open");
 		nng_socket_set_ms(X[k].s, NNG_OPT_RECVTIMEO, 80);
 		nng_socket_set_ms(X[k].s, NNG_OPT_SENDTIMEO, 80);
@@ -3170,8 +4127,8 @@ run_matrix_case(long idx, const mpair *mp, int pos, int side, const optdef *o, l
 		}
 	}
 	atomic_fetch_or(&trans_used, 1u << tran);
-	tr("open %s; connect over %s (B listens, A dials)", mp->name, vf_tran_names[tran]);
-	if (vf_connect(X[1].s, X[0].s, tran) != 0) vf_harness_fail("matrix connect over %s", vf_tran_names[tran]);
+	tr("open %s; connect over %s (B listens, A dials)", mp->name, tn(tran));
+	if (vf_connect(X[1].s, X[0].s, tran) != 0) vf_harness_fail("matrix connect over %s", tn(tran));
 	if (mp->pa == P_PUB) vf_msleep(3);
 	bool     did = false;
 	nng_aio *maio = NULL;
@@ -3231,6 +4188,7 @@ run_matrix_case(long idx, const mpair *mp, int pos, int side, const optdef *o, l
 					nng_msg *m = nng_aio_get_msg(maio);
 					nng_aio_set_msg(maio, NULL);
 					uint32_t pid = m != NULL ? nng_msg_get_pipe(m).id : 0;
+					led_rcv_id   = RCV_ID((int) (x - X), -1);
 					if (led_take(m, L_APP, x->pname, "nng_socket_recv", &slot)) {
 						x->last      = m;
 						x->last_slot = slot;
@@ -3289,6 +4247,7 @@ run_matrix_case(long idx, const mpair *mp, int pos, int side, const optdef *o, l
 			rv          = x->use_ctx ? nng_ctx_recvmsg(x->c, &m, fl) : nng_recvmsg(x->s, &m, fl);
 			tr("%c recv%s -> %d", mp->script[2 * p], fl ? "(NB)" : "", rv);
 			int slot = -1;
+			led_rcv_id = RCV_ID((int) (x - X), -1);
 			if (rv == 0 && led_take(m, L_APP, x->pname, "nng_recvmsg", &slot)) {
 				x->last      = m;
 				x->last_slot = slot;
@@ -3320,10 +4279,15 @@ run_matrix_case(long idx, const mpair *mp, int pos, int side, const optdef *o, l
 		nng_socket_close(x->s);
 	}
 	if (maio != NULL) nng_aio_free(maio);
+	if (shortio) {
+		vf_stat("io_short_sends", vf_io_short_sends());
+		vf_io_plan(VF_IO_FULL, 0, VF_IO_FULL, 0, 0);
+		vf_io_eagain_every(0);
+	}
 	vf_stat("calls", nsteps + 12);
 	finish_program();
 	if ((idx % 509) == 0) {
-		vf_sample("{\"pair\":\"%s\",\"transport\":\"%s\",\"script\":\"%s\",\"set\":\"%s=%s\",\"side\":\"%c\",\"position\":\"%s\"}", mp->name, vf_tran_names[tran], mp->script, o->tag, vt, "AB"[side], posn);
+		vf_sample("{\"pair\":\"%s\",\"transport\":\"%s\",\"script\":\"%s\",\"set\":\"%s=%s\",\"side\":\"%c\",\"position\":\"%s\"}", mp->name, tn(tran), mp->script, o->tag, vt, "AB"[side], posn);
 	}
 }
 
@@ -3367,6 +4331,8 @@ int
 main(int argc, char **argv)
 {
 	vf_init(argc, argv);
+	for (int i = 0; i < P_PAIR1P; i++) PR[i] = vf_protos[i];
+	PR[P_PAIR1P] = (vf_proto) { "pair1poly", nng_pair1_open_poly, NULL, 0x11, 0x11, "pair1" };
 	prev_abrt = signal(SIGABRT, abrt_handler);
 	memset(str1k, 'a', sizeof(str1k) - 1);
 	scribble_all = getenv("C03_HUB") != NULL;
@@ -3406,6 +4372,12 @@ main(int argc, char **argv)
 	if (!strcmp(vf_mode, "matrix")) {
 		matrix_mode = true;
 		run_matrix();
+	} else if (!strcmp(vf_mode, "stall")) {
+		stall_mode = true;
+		for (long idx = 0; idx < vf_cases; idx++) {
+			if (!vf_want_case(idx)) continue;
+			run_stall_program(idx);
+		}
 	} else {
 		mt_mode = !strcmp(vf_mode, "mt");
 		for (long idx = 0; idx < vf_cases; idx++) {
